@@ -121,6 +121,18 @@ theorem fillBlocks_format (raw : List Nat) : ∀ (ts : List (Nat × Nat)) (off :
         obtain ⟨b', h1, h2⟩ := ih (off + 1) b1 (by omega) h
         exact ⟨b', by simp only [fillFrom, hx, hs]; exact h1, by simp only [List.length_cons]; omega⟩
 
+theorem natCast_bne' (a b : Nat) : (((a : Int) != (b : Int)) : Bool) = (a != b) := by
+  by_cases h : a = b
+  · subst h; simp
+  · have : ¬ (a : Int) = (b : Int) := by omega
+    rw [bne_iff_ne.mpr this, bne_iff_ne.mpr h]
+
+theorem natCast_beq' (a b : Nat) : (((a : Int) == (b : Int)) : Bool) = (a == b) := by
+  by_cases h : a = b
+  · subst h; simp
+  · have : ¬ (a : Int) = (b : Int) := by omega
+    rw [beq_eq_false_iff_ne.mpr this, beq_eq_false_iff_ne.mpr h]
+
 /-! ### one target, one loop -/
 
 variable {σ ρ : Type}
